@@ -9,13 +9,16 @@ import (
 
 func (e *engine) Rule() string {
 	if *prop == "C23" {
-		return "C23: real 3-store / 2-region cluster driven by a random deterministic schedule (campaigns = leader changes, one-store partitions, message drop/dup/out-of-order delivery, heartbeat ticks) with writes, reads and malformed probes sent to leaders, followers and deposed leaders; every admission decision, id draw, apply, completion and read is replayed through the Lean model; non-trivial = at least one request refused by the leader check, one read served, and one write acknowledged before a served read"
+		return "C23: real 3-store / 2-region cluster driven by a random deterministic schedule (campaigns = leader changes, one-store partitions, message drop/dup/out-of-order delivery, heartbeat ticks) with writes, reads and malformed probes sent to leaders, followers and deposed leaders; about a third of the cases are the directed family 'partition the leader, let the others time out and elect, acknowledge a write on the new leader, read on the deposed leader before/after its own ticks, optionally with an earlier read pending and its heartbeat acknowledgements delayed across the leader change'; every admission decision, id draw, apply, completion and read is replayed through the Lean model; non-trivial = at least one request refused by the leader check, one read served, and one write acknowledged before a served read"
 	}
 	return "C22: (a) random op sequences on the real command pipelines of three stores (ids drawn from the per-store counters so that they collide across stores, entries applied in a common log order on every store, timeouts, rejected duplicate registrations, id 0, entries nobody waits for; inside ValidRun's domain: accepted registrations always use the counter's id, applied entries with a live id are the proposed ones); (b) the real 3-store / 2-region cluster under a random deterministic schedule (leader changes, partitions, drop/dup/reorder) with concurrent proposals on several stores, replayed event by event through the Lean model, plus prefix-agreement / exactly-once oracles; non-trivial = proposals registered on at least two stores, an entry applied on at least two stores, and at least one waiter handed a result"
 }
 
 func (e *engine) Gen(r *hlib.Rand, tier string) []string {
 	if *prop == "C23" {
+		if r.Chance(35) {
+			return genDeposed(r)
+		}
 		return genCluster(r, true)
 	}
 	if r.Chance(55) {
@@ -212,6 +215,72 @@ func genCluster(r *hlib.Rand, reads bool) []string {
 	if reads {
 		for reg := 1; reg <= nRegions; reg++ {
 			ops = append(ops, fmt.Sprintf("c.read %d %d", leader[reg], reg), "c.pump")
+		}
+	}
+	ops = append(ops, "c.verdict")
+	return ops
+}
+
+// genDeposed: the family that attacks the assumed ReadIndex contract.  The leader of a region
+// acknowledges writes, is cut off, the others time out and elect (real election ticks), the
+// new leader acknowledges newer writes, and reads go to the deposed leader - before and/or after
+// its own clock runs, optionally while an earlier read of the same peer is still pending with
+// its heartbeat acknowledgements delayed across the leader change.  On a correct tree those
+// reads stay unanswered (they end in ReadCommand's 3 s timeout after the case is over), answer
+// not-leader, or - for the read issued before the partition - legally return the old value.
+func genDeposed(r *hlib.Rand) []string {
+	ops := []string{"p.skip 2 1000", "p.skip 3 2000"}
+	reg := 1 + r.Intn(nRegions)
+	l := 1 + r.Intn(nStores)
+	other := 1 + (reg % nRegions)
+	ops = append(ops, fmt.Sprintf("c.campaign %d %d", reg, l), fmt.Sprintf("c.campaign %d %d", other, 1+r.Intn(nStores)), "c.pump")
+	for i := 0; i <= r.Intn(2); i++ {
+		ops = append(ops, fmt.Sprintf("c.propose %d %d", l, reg), "c.pump")
+	}
+	if r.Chance(40) {
+		ops = append(ops, fmt.Sprintf("c.read %d %d", l, reg), "c.pump")
+	}
+	pending := r.Chance(50)
+	if pending {
+		for s := 1; s <= nStores; s++ {
+			if s != l {
+				ops = append(ops, fmt.Sprintf("c.hold %d %d", s, l))
+			}
+		}
+		ops = append(ops, fmt.Sprintf("c.read %d %d", l, reg), "c.pump")
+	}
+	ops = append(ops, fmt.Sprintf("c.iso %d", l), fmt.Sprintf("c.elect %d", reg))
+	for i := 0; i <= r.Intn(2); i++ {
+		ops = append(ops, fmt.Sprintf("c.proposeL %d", reg), "c.pump")
+	}
+	if r.Chance(35) { // the deposed leader's own clock runs before the read
+		for i := 0; i <= r.Intn(25); i++ {
+			ops = append(ops, fmt.Sprintf("c.tick %d %d", reg, l))
+		}
+	}
+	ops = append(ops, fmt.Sprintf("c.read %d %d", l, reg))
+	if r.Chance(30) {
+		ops = append(ops, fmt.Sprintf("c.propose %d %d", l, reg))
+	}
+	if pending {
+		ops = append(ops, "c.release", "c.pump")
+	}
+	if r.Chance(50) { // ... and after it
+		for i := 0; i <= r.Intn(25); i++ {
+			ops = append(ops, fmt.Sprintf("c.tick %d %d", reg, l))
+		}
+		ops = append(ops, fmt.Sprintf("c.read %d %d", l, reg))
+	}
+	if r.Chance(60) { // the partition heals: the old leader learns of its successor
+		ops = append(ops, "c.heal")
+		for s := 1; s <= nStores; s++ {
+			ops = append(ops, fmt.Sprintf("c.tick %d %d", reg, s))
+		}
+		ops = append(ops, "c.pump", fmt.Sprintf("c.read %d %d", l, reg), "c.pump", fmt.Sprintf("c.proposeL %d", reg), "c.pump")
+		for s := 1; s <= nStores; s++ {
+			if s != l && r.Chance(50) {
+				ops = append(ops, fmt.Sprintf("c.read %d %d", s, reg), "c.pump")
+			}
 		}
 	}
 	ops = append(ops, "c.verdict")
